@@ -116,7 +116,7 @@ Fillers == <<
    Rep(La, 1, 2, FALSE), Rep(Cat(<<La, Look(AnyC)>>), 1, 2, FALSE), Rep(Alt(<<La, Lb>>), 0, 2, FALSE), Opt(Plus(La)), Opt(Star(Cat(<<La, Lb>>)))
 >>
 
-NContexts == 41
+NContexts == 44
 Ctx(i, H) ==
    CASE i = 1  -> H
      [] i = 2  -> Cat(<<E0, H>>)
@@ -161,6 +161,11 @@ Ctx(i, H) ==
      [] i = 39 -> Cat(<<Asrt("nwb"), H>>)
      [] i = 40 -> Cat(<<Grp(101, H), Asrt("nwb")>>)
      [] i = 41 -> Cat(<<Asrt("wb"), H, Lb>>)
+     \* a counted repeat (lo >= 2) of a hard body with the filler as its tail, DIRECTLY inside an atomic group / look-ahead:
+     \* a later iteration must be able to make an earlier iteration's tail give back
+     [] i = 42 -> Atom(Rep(Cat(<<Look(La), H>>), 2, 2, TRUE))
+     [] i = 43 -> Cat(<<Look(Rep(Cat(<<Look(La), H>>), 2, 2, TRUE)), La>>)
+     [] i = 44 -> Cat(<<NLook(Rep(Cat(<<Look(La), H>>), 2, 3, TRUE)), AnyC>>)
 
 \* a context/filler pair is in the space when the result is well-formed for the parser/compiler
 CtxOK(e) ==
@@ -216,7 +221,10 @@ CondFillers == <<
    Cond(La, Star(Lb), Lc), Cond(La, Alt(<<Lb, Cat(<<Lb, Lc>>)>>), Lc), Cond(La, Lc, Star(Lb)), Cond(Look(La), Star(AnyC), Lb),
    Cond(La, Rep(Lb, 0, 1, TRUE), Lc), Cond(Lc, Lc, Alt(<<La, Cat(<<La, Lb>>)>>)),
    \* conditions that fail at once (false path taken while alternatives of the context are still alive)
-   Cond(Lc, Lc, Empty), Cond(Lc, Lb, La), Cond(NLook(Empty), La, Empty)
+   Cond(Lc, Lc, Empty), Cond(Lc, Lb, La), Cond(NLook(Empty), La, Empty),
+   \* capture groups in the condition AND in the branches (numbering follows the opening parentheses: condition, yes, no)
+   Cond(Grp(201, La), Grp(202, Lb), Grp(203, Lc)), Cond(Look(Grp(201, La)), Cat(<<Grp(202, AnyC), Lb>>), Lc),
+   Cond(Grp(201, La), Cat(<<Grp(202, Lb), Bref(201)>>), Lc), Cond(Grp(201, Alt(<<La, Lb>>)), Lc, Grp(202, Cat(<<AnyC, Lc>>)))
 >>
 \* fillers that test group 101, which the context opens (optionally) to the left
 CondFillersG == <<
@@ -319,7 +327,13 @@ WildShapes == <<
    Cat(<<Grp(1, Opt(La)), Plus(Cat(<<Look(Grp(2, Cat(<<Bref(1), Bref(2)>>))), AnyC>>))>>),   \* (a?)(?:(?=(\1\2)).)+
    Rep(Grp(1, Cat(<<Opt(Bref(1)), LE, Keep>>)), 2, 3, TRUE),                                \* (\1?E\K){2,3}
    Cat(<<Star(Cat(<<Look(Grp(1, Star(AnyC))), AnyC>>)), Bref(1)>>),                          \* (?:(?=(.*)).)*\1
-   Cat(<<Grp(1, Star(AnyC)), LookB(Cat(<<Bref(1)>>))>>)                                      \* (.*)(?<=\1)  (not constant: rejected)
+   Cat(<<Grp(1, Star(AnyC)), LookB(Cat(<<Bref(1)>>))>>),                                     \* (.*)(?<=\1)  (not constant: rejected)
+   \* loops whose body can match empty only through an alternative that is neither the first nor the last (the empty-iteration guard
+   \* is chosen from the body's minimum size)
+   Cat(<<Star(Alt(<<Cat(<<La, Look(Lb)>>), Empty, Lc>>)), Lb>>),                             \* (?:a(?=b)||c)*b
+   Cat(<<Rep(Alt(<<Cat(<<La, Look(Lb)>>), Empty, Lc>>), 0, -1, FALSE), Lb>>),                \* (?:a(?=b)||c)*?b
+   Cat(<<Plus(Alt(<<Cat(<<La, Look(Lb)>>), Look(Empty), Lc, LE>>)), AnyC>>),                 \* (?:a(?=b)|(?=)|c|E)+.
+   Cat(<<Grp(1, La), Rep(Alt(<<Cat(<<Lb, Bref(1)>>), Lc, NLookB(Lb), LE>>), 2, -1, TRUE), Lb>>)   \* (a)(?:b\1|c|(?<!b)|E){2,}b
 >>
 WildShapePats == { [ast |-> WildShapes[j], ng |-> Opened(WildShapes[j])] : j \in 1..Len(WildShapes) }
 
